@@ -67,6 +67,11 @@ CHECKS = {
          'After the real constructor each per-halo array at row r must equal attr(hid[r], column) exactly, ids strictly increasing, and hid[pinds[p]] == phid[p].',
          'light runs replace numpy.histogramdd (mass-function tables, outside the property) by a shape-preserving double; 1 in 12 file sets runs unmodified',
          'DESIGN.md 4/C12'),
+ 'C13': ('exploration',
+         'exhaustive metamorphic enumeration: estimator configurations (nmesh x cell size x TSC/CIC x compensated x interlaced x binning x poles x dtype) x particle sets x a generating set of transformations (permutations, whole-cell translations on every axis, thread counts, pos2 = pos) through calc_power',
+         'Every transformation of every particle set in every configuration must leave power/poles/k_avg unchanged within 3e-5 of max|P| (float32; noise floor re-measured each run and required <= 3e-6) and N_mode, k/mu ranges, shapes and dtypes exactly unchanged, also across particle sets; identical repeated calls must agree bitwise (race probe with its own signature).',
+         'tolerances empirical (measured noise floor 1.6e-6); translations use exactly representable cell sizes',
+         'DESIGN.md 4/C13'),
  'C14': ('model_checking',
          'explicit-state BFS over the real decompress loop (state read from the parser frame locals; transitions = next chunk length 0..remaining; every transition a real execution) + unmerged enumeration of all 2^(L-1) chunk compositions of short streams',
          'For each stream produced by the real compress the reachable parser states (offset, _size, _pos, _partial_len, buffered bytes, bytesout, output) are enumerated completely and every transition executed; the invariant (output = completed frames, final length/bytes = payload) is evaluated in every state. Merging is validated by brute-force enumeration of every composition of mini-frame streams.',
